@@ -87,45 +87,37 @@ func c18EncoderTotal(c *Ctx) {
 // ---------------------------------------------------------------------------
 // R3 STREAM-CONVENTION
 
-// c18RegisteredPayloadTypes: the payload types a package's command registry can instantiate (closures stored in the
-// package-level map literal, each returning &T{}).
+// c18RegisteredPayloadTypes: the payload types of a package's command stream: every named type of the package whose
+// pointer implements the package's CommandPayload interface (however the package maps CIDs to constructors: map
+// literal of closures, switch, table of prototypes).
 func c18RegisteredPayloadTypes(P *load.Program, rel string) map[*types.Named]bool {
 	out := map[*types.Named]bool{}
 	sp := P.SSAPkg(rel)
 	if sp == nil {
 		return out
 	}
-	init := sp.Func("init")
-	if init == nil {
+	cpObj := sp.Pkg.Scope().Lookup("CommandPayload")
+	if cpObj == nil {
 		return out
 	}
-	for _, b := range init.Blocks {
-		for _, ins := range b.Instrs {
-			mu, ok := ins.(*ssa.MapUpdate)
-			if !ok {
-				continue
-			}
-			var fn *ssa.Function
-			switch v := mu.Value.(type) {
-			case *ssa.Function:
-				fn = v
-			case *ssa.MakeClosure:
-				fn, _ = v.Fn.(*ssa.Function)
-			}
-			if fn == nil || fn.Blocks == nil {
-				continue
-			}
-			for _, fb := range fn.Blocks {
-				if ret, ok := fb.Instrs[len(fb.Instrs)-1].(*ssa.Return); ok && len(ret.Results) == 1 {
-					if mi, ok := ret.Results[0].(*ssa.MakeInterface); ok {
-						if pt, ok := mi.X.Type().(*types.Pointer); ok {
-							if n, ok := pt.Elem().(*types.Named); ok {
-								out[n] = true
-							}
-						}
-					}
-				}
-			}
+	iface, ok := cpObj.Type().Underlying().(*types.Interface)
+	if !ok {
+		return out
+	}
+	for _, name := range sp.Pkg.Scope().Names() {
+		tn, ok := sp.Pkg.Scope().Lookup(name).(*types.TypeName)
+		if !ok || tn.IsAlias() {
+			continue
+		}
+		n, ok := tn.Type().(*types.Named)
+		if !ok {
+			continue
+		}
+		if _, isIface := n.Underlying().(*types.Interface); isIface {
+			continue
+		}
+		if types.Implements(types.NewPointer(n), iface) {
+			out[n] = true
 		}
 	}
 	return out
@@ -140,7 +132,7 @@ func c18StreamConvention(c *Ctx) {
 	for _, rel := range c18ApplayerPkgs {
 		regs := c18RegisteredPayloadTypes(P, rel)
 		if len(regs) == 0 {
-			r.Unknown("R3.stream-test", rel, "", "the package registers payload constructors in a map literal", "none found")
+			r.Unknown("R3.stream-test", rel, "", "the package has types implementing its CommandPayload interface", "none found")
 			continue
 		}
 		var names []*types.Named
